@@ -15,7 +15,8 @@ ASSUMPTIONS = ['codes are concrete per structure: A,B = decodable ordinary (BSC_
 OUTSIDE = ['histories longer than the bounds; by the one-step formulation the window claim extends to any history that '
            'reaches a pre-state of the enumerated shapes (induction argued in DESIGN.md, not solver-checked)']
 EXPLORE_OPTS = {'max_paths': 100000, 'max_seconds': 900, 'hash_collide': True}
-CODES = {'A': 'BSC_getpid', 'B': 'BSC_getppid', 'S': 'TRACE_DATA_EXEC', 'K': 'proc_exit', 'P': 'TRACE_PANIC', 'U': None}
+CODES = {'A': 'BSC_getpid', 'B': 'BSC_getppid', 'S': 'TRACE_DATA_EXEC', 'K': 'proc_exit', 'P': 'TRACE_PANIC', 'U': None,
+         'T': 'TRACE_DATA_THREAD_TERMINATE'}
 UNKNOWN_ID = 0x0badc0d0
 
 
@@ -51,6 +52,8 @@ def structures(tier):
         hist('A', 4, [1, 2])
         hist('A', 5, [1, 2])
         hist('AP', 3, [0, 1, 2])
+        hist('AT', 3, [0, 1, 2])          # T's payload word names a thread id (free: may equal another event's thread)
+        sts.append({'kind': 'long', 'n': 60000})
         pre_alpha, pre_len = 'AS', 2
     else:
         for n in (1, 2, 3):
@@ -58,6 +61,8 @@ def structures(tier):
         hist('AS', 4)
         hist('AB', 4, [1, 2])
         hist('A', 5)
+        hist('AST', 3)
+        sts.append({'kind': 'long', 'n': 200000})
         pre_alpha, pre_len = 'ASK', 3
     # one-step: per-thread sequences that start with a START (so that something is open), for 1 or 2 threads
     letters = [(c, q) for c in pre_alpha for q in quals]
@@ -98,7 +103,7 @@ _dec = []
 
 def _decodable():
     if not _dec:
-        _dec.append({'BSC_getpid', 'BSC_getppid', 'TRACE_DATA_EXEC'})
+        _dec.append({'BSC_getpid', 'BSC_getppid', 'TRACE_DATA_EXEC', 'TRACE_DATA_THREAD_TERMINATE'})
     return _dec[0]
 
 
@@ -131,7 +136,59 @@ def _compare_emission(ctx, L, ret, emitted, history_evs):
 def run(ctx, st):
     if st['kind'] == 'history':
         return run_history(ctx, st)
+    if st['kind'] == 'long':
+        return run_long(ctx, st)
     return run_step(ctx, st)
+
+
+def run_long(ctx, st):
+    """a long concrete (seeded) history on three threads against the same specification: state that only builds up over
+    thousands of records (per-thread backlogs, caches); one event in the middle carries symbolic payload"""
+    import random
+    from pykdebugparser.kevent import Kevent
+    by_id, by_name = sweep.codes()
+    rng = random.Random(4242 + st['n'])
+    tids = [0x101, 0x202, 0x303]
+    letters = 'AAABSKUP'
+    p = _parser(ctx)
+    state = []
+    evs = []
+    mid = st['n'] // 2
+    mismatch = None
+    for i in range(st['n']):
+        c = rng.choice(letters)
+        # START-heavy on thread 0 so that unmatched STARTs pile up
+        q = rng.choice([1, 1, 1, 2, 0, 3]) if rng.random() < 0.5 else rng.choice([1, 2, 2, 0])
+        tid = tids[0] if rng.random() < 0.6 else rng.choice(tids[1:])
+        name = CODES[c]
+        eid = by_name[name] if name else UNKNOWN_ID
+        if i == mid:
+            e = _mk(ctx, 0, 'A', 2, tid)
+        else:
+            w = (i, i + 1, i + 2, i + 3)
+            obj = Kevent(i, b''.join(x.to_bytes(8, 'little') for x in w), w, tid, eid | q, eid, q)
+            e = P.Ev(obj, tid, eid, q, name, name is not None and name in _decodable())
+        evs.append(e)
+        try:
+            ret = p.feed(e.obj)
+        except Exception as ex:     # noqa
+            ctx.check('C04/long/no-error', False, 'event %d: %s: %s' % (i, type(ex).__name__, ex))
+            ctx.reach()
+            return
+        state, emitted = P.step(state, e)
+        if mismatch is None:
+            if emitted is None:
+                if ret is not None:
+                    mismatch = (i, 'a trace where none is due')
+            elif ret is None:
+                mismatch = (i, 'no trace for a closing END / single event')
+            else:
+                strays = {id(x.obj) for x in emitted if getattr(x, 'stray', False)}
+                if [id(x) for x in ret.ktraces if id(x) not in strays] != [id(x.obj) for x in emitted if id(x.obj) not in strays]:
+                    mismatch = (i, 'window differs (%d vs %d events)' % (len(ret.ktraces), len(emitted)))
+        # keep the specification state bounded like any real consumer would not: windows of never-closed STARTs grow
+    ctx.check('C04/long/matches-specification', mismatch is None, 'first difference at event %s: %s' % (mismatch or (None, None)))
+    ctx.reach()
 
 
 def run_history(ctx, st):
